@@ -25,7 +25,7 @@ for pid in allids:
 na = []
 for pid in allids:
     if pid in props and props[pid].get("claimed") is not False: continue
-    reason = props[pid]["na_reason"] if pid in props else "not built yet in this development (model and theorems planned in DESIGN.md §6; no check is registered, so nothing is claimed)"
+    reason = props[pid].get("na_reason", "check under construction: not yet passing on the unchanged tree, so it is not registered") if pid in props else "not built yet in this development (model and theorems planned in DESIGN.md §6; no check is registered, so nothing is claimed)"
     na.append(dict(property_id=pid, reason=reason))
 m = dict(
     version=1,
